@@ -203,7 +203,10 @@ def solver_pressure_sources(ix):
         m = ix.lookup_method(c, "create_pit_node_entries")
         if m is None:
             continue
-        cs = [x for x in calls(m.node, "set_fixed_node_entries") if const_str(x.args[-1]) == "p"]
+        # calls of set_fixed_node_entries(..., mode="p"), whatever the spelling of the arguments
+        from ..astutil import bind_args
+        sf = ix.func("pandapipes.component_models.component_toolbox.set_fixed_node_entries")
+        cs = [x for x in calls(m.node, "set_fixed_node_entries") if const_str(bind_args(sf, x).get("mode")) == "p"]
         if not cs:
             continue
         tbl = ix.method_const(c, "table_name")
